@@ -32,6 +32,7 @@ func (m BufMode) String() string {
 var AllBufModes = []BufMode{BufExact, BufSub, BufShared, BufSubZero, BufSharedZero}
 
 type bufDrv struct {
+	keep   bool // reference pass: hand out exact private copies and never scribble
 	t      art.Tree[[]byte, int]
 	keys   [][]byte
 	index  map[string]int
@@ -67,6 +68,9 @@ func NewBufDriver(t art.Tree[[]byte, int], keys [][]byte, mode BufMode) Driver {
 
 func (d *bufDrv) MemFault() string { return d.fault }
 
+// SetKeep switches the reference mode (private exact copies, no scribbling) on or off.
+func (d *bufDrv) SetKeep(on bool) { d.keep = on }
+
 // Scribble overwrites the shared buffer (the other modes scribble after every call).
 func (d *bufDrv) Scribble() {
 	for i := range d.shared {
@@ -78,6 +82,11 @@ func (d *bufDrv) Scribble() {
 func (d *bufDrv) arg(i int) []byte {
 	k := d.keys[i]
 	var arr, s []byte
+	if d.keep {
+		c := make([]byte, len(k))
+		copy(c, k)
+		return c
+	}
 	switch d.mode {
 	case BufExact:
 		arr = make([]byte, len(k))
@@ -282,7 +291,18 @@ func (MonC13) State(x *Exec) *Violation {
 					return v
 				}
 				if !u.HasRange {
-					continue // collation Range has no specified result; only the memory clause applies
+					// collation Range has no specified result, but whatever it yields must not depend on
+					// what the caller does to the argument buffers after the call returned
+					if kd, ok := x.D.(interface{ SetKeep(bool) }); ok && pan == "" {
+						kd.SetKeep(true)
+						ref, rp := collectSafe(x.D, Query{Kind: SeqRange, A: a, B: b})
+						kd.SetKeep(false)
+						if rp == "" && !(len(ref) == 0 && len(got) == 0) && !PairsEqual(got, ref) {
+							return viol(fmt.Sprintf("Range(%s,%s) iterated after the caller reused the argument buffers, content %s", u.KeyStr[a], u.KeyStr[b], x.Ref),
+								"the same pairs as with untouched argument buffers: "+PairsString(u, ref), PairsString(u, got))
+						}
+					}
+					continue
 				}
 				if e, skip := RangeExpected(u, x.Ref, a, b); !skip && pan == "" && !PairsEqual(got, e) && !(len(got) == 0 && len(e) == 0) {
 					return viol(fmt.Sprintf("Range(%s,%s), content %s", u.KeyStr[a], u.KeyStr[b], x.Ref), PairsString(u, e), PairsString(u, got))
